@@ -143,6 +143,10 @@ ReplyOutcome(req, pdu) ==
     [] d.class = "exc" -> Done(req.r, "exc", d.code, <<>>)
     [] OTHER -> Done(req.r, "err", 0, <<>>)
 
+\* (where the property leaves the outcome open -- see ModbusPdu!ByteCountFieldDisagrees -- both outcomes are behaviours)
+ReplyOutcomes(req, pdu) ==
+  {ReplyOutcome(req, pdu)} \cup (IF ByteCountFieldDisagrees(req, pdu) THEN {Done(req.r, "err", 0, <<>>)} ELSE {})
+
 GAwaitFrame == s.pc = "await" /\ RHead.st # "more"
 AwaitFrame ==
   /\ GAwaitFrame
@@ -155,9 +159,9 @@ AwaitFrame ==
      ELSE IF s.framing = "tcp" /\ h.tx # s.cur.tx /\ Bug # "notxcheck" THEN
           \* a late reply, a duplicate, an unsolicited frame: discarded, keep waiting
           s' = s1 /\ out' = NoOut
-     ELSE /\ s' = CompleteIn([s1 EXCEPT !.pc = "idle", !.cur = NoCur, !.toCount = 0], s.cur.req.style,
-                             ReplyOutcome(s.cur.req, h.pdu))
-          /\ out' = CompleteOut(s.cur.req.style, ReplyOutcome(s.cur.req, h.pdu))
+     ELSE \E o \in ReplyOutcomes(s.cur.req, h.pdu) :
+          /\ s' = CompleteIn([s1 EXCEPT !.pc = "idle", !.cur = NoCur, !.toCount = 0], s.cur.req.style, o)
+          /\ out' = CompleteOut(s.cur.req.style, o)
 
 GAwaitIo == s.pc = "await" /\ RHead.st = "more" /\ s.eof
 AwaitIo == /\ GAwaitIo
